@@ -1,3 +1,4 @@
+-- FAMILY: SQLC27
 /-
   Driver.SQLC27.handler — C27 (GROUPING SETS / ROLLUP / CUBE): `Driver.SqlCore` (O = `Spec.acceptable` on the engine's rows) plus
   * K-side tie of the desugaring model: `Spec.run` of the plan with every grouping-sets node replaced by the binder's
